@@ -497,6 +497,11 @@ def scalar_replayer(op, names, spec, nin=None):
         ms = ptreplay.montgomery_structured(2000)
         for i, a_ in enumerate(ms):
             cands.append({nm: (a_ if j == 0 else ms[(i * 7 + 3 * j) % len(ms)]) for j, nm in enumerate(names)})
+        if len(names) == 2:
+            # variable-by-variable kernels: pairs whose pre-subtraction Montgomery value is structured (both regimes)
+            for A_, B_ in ptreplay.montgomery_pairs(400):
+                cands.append({names[0]: A_, names[1]: B_})
+                cands.append({names[0]: B_, names[1]: A_})
         ops = [{"op": op, "args": ["out"] + names, "init": dict({nm: "w:" + ",".join(str((c[nm] >> (64 * i)) & (2**64 - 1)) for i in range(4)) for nm in names}, out="w:7,7,7,7")} for c in cands]
         res = native.run_ops("", ops)
         for c, r in zip(cands, res):
